@@ -798,7 +798,9 @@ impl<P: ConnectionProvider> RecursorDnsHandle<P> {
     ) -> Result<(u32, u8), RecursorError> {
         let mut pool_queries = vec![];
 
-        for ns in nameservers {
+        // A referral can carry any number of NS records. Resolving all of their names would let a
+        // single referral cost a number of upstream queries chosen by the server that sent it.
+        for ns in nameservers.take(MAX_GLUELESS_NS_LOOKUPS) {
             let record_name = ns.0.clone();
 
             // For child nameservers of zone, we can reuse the pool that was passed in as
@@ -973,6 +975,10 @@ fn name_server_config(
 /// Maximum number of cname records to look up in a CNAME chain, regardless of the recursion
 /// depth limit
 const MAX_CNAME_LOOKUPS: u8 = 64;
+
+/// Maximum number of name server names of one delegation whose addresses are looked up when the
+/// delegation came without usable glue.
+const MAX_GLUELESS_NS_LOOKUPS: usize = 8;
 
 #[cfg(test)]
 mod tests {
